@@ -133,8 +133,11 @@ class Core:
             if r.random() < 0.3:
                 lines += ['else:'] + [ind + l for l in self.block(cp(env), genv, depth + 1, in_func, in_loop, 1)]
             return lines
-        if c < 0.72:
+        if c < 0.71:
             return [r.choice(['pass', '0', "'doc'", 'None', '1.5', 'True'])]
+        if c < 0.72 and depth < 3:
+            test = r.choice(['__debug__', '__debug__ is True', '__debug__ is not False', '__debug__ == True'])
+            return ['if %s:' % test] + [ind + l for l in self.block(cp(env), genv, depth + 1, in_func, in_loop, r.randint(1, 2))]
         if c < 0.745 and depth < 2:
             v = self.fresh('l' if in_func else 'g')
             bound = r.choice(['0', '1', '2', '3', '(%s %% 4)' % self.int_expr(env, 2), '-1', 'True'])
